@@ -27,3 +27,8 @@ def python_evaluate(s: str) -> int:
         raise NotAnIntegerException(s, str(ex))
     except NameError as ex:
         raise NotAnIntegerException(s, str(ex))
+    except NotAnIntegerException:
+        raise
+    except Exception as ex:
+        # E.g. ZeroDivisionError, OverflowError, AttributeError: the expression cannot be evaluated
+        raise NotAnIntegerException(s, str(ex))
